@@ -250,6 +250,7 @@ func main() {
 	t1 := time.Now()
 	correspondence(r, sum, cw, o.Count(250, 5000))
 	correspondenceIntLits(r, sum, cw, o.Count(250, 5000))
+	correspondenceReaders(r, sum, cw, o.Count(200, 4000))
 	sum.Extra["correspondence_seconds"] = time.Since(t1).Seconds()
 
 	x.runCorpus(true)
